@@ -292,13 +292,23 @@ def tlc_edges(spec_rel, cfg, timeout=900, env=None, cache=True, simulate=None, d
                 simwalks.append([])
         if simulate and simwalks:
             simwalks[-1].append(len(edges))
-        edges.append([s, d, e["act"], e["obs"]])
+        edges.append([s, d, canon(e["act"]), canon(e["obs"])])
         fins[str(d)] = e.get("fin")
     g = dict(edges=edges, inits=sorted(inits), init_acts=init_acts, fins=fins, nstates=len(ids), walks=simwalks, generated=res["generated"],
              distinct=res["distinct"], depth=res["depth"], wall=res["wall"], cmd=res["cmd"])
     with open(cfile, "w") as f:
         json.dump(g, f)
     return g
+
+
+def canon(x):
+    """Canonical form for comparison: lists under keys starting with S_ are sets."""
+    if isinstance(x, dict):
+        return {k: (sorted((canon(v) for v in x[k]), key=lambda z: json.dumps(z, sort_keys=True))
+                    if k.startswith("S_") and isinstance(x[k], list) else canon(x[k])) for k in x}
+    if isinstance(x, list):
+        return [canon(v) for v in x]
+    return x
 
 
 def act_in(act):
@@ -422,6 +432,7 @@ class GraphJudge:
         """steps: list of (act_in dict, observed out, observed obs). Returns (ok, index, allowed)."""
         cur = {start}
         for n, (ain, oout, oobs) in enumerate(steps):
+            oout, oobs = canon(oout), canon(oobs)
             k = json.dumps(ain, sort_keys=True)
             nxt = set()
             allowed = []
